@@ -751,11 +751,12 @@ PROPS["C14"] = dict(
 def _c15_floors(m, tier):
     out = need(m, "release_observed", ["HeapBytes", "HeapByteArray", "Protected<HeapBytes>", "Protected<HeapByteArray>", "object types"], "containers whose release was observed")
     ph = m.cov.get("plain_history", {})
-    for v in ["drop", "grow", "shrink", "grow_then_shrink", "clone", "truncate", "repeated_growth", "lock_unlock_noaccess"]:
+    for v in ["drop", "grow", "shrink", "grow_then_shrink", "clone", "truncate", "repeated_growth", "lock_unlock_noaccess", "shrink_then_lock", "shrink_regrow_lock_unlock"]:
         if "HeapBytes:" + v not in ph:
             out.append("HeapBytes history '%s' not run" % v)
     if len([k for k in ph if k.startswith("object:")]) < 6:
         out.append("not all 6 object-type histories run")
+    out += need(m, "process_mode", ["default", "mlockall(MCL_CURRENT|MCL_FUTURE)"], "process memory-locking modes")
     bad = m.cov.get("history_without_release(inconclusive)", {})
     if bad:
         out.append("histories that created and dropped a container without any observed release: %s" % dict(bad))
@@ -770,7 +771,7 @@ PROPS["C15"] = dict(
                "precomputed keys, locked signed messages, LockedPwHash, heap DryocBox) run with every container filled with a zero-free pattern; the hook inspects the whole released allocation including spare capacity. "
                "A history that never observes a release is inconclusive, not held.",
     level_note="The hook sits after all wiping the crate does and before free(); leaks (allocations never released) are outside the property and only counted.",
-    runs=lambda tier: [dict(build="ni", monitor="c15"), dict(kind="custom", fn=_valgrind("c15"))] + ([dict(kind="custom", fn=_asan("c15"))] if tier == "thorough" else []),
+    runs=lambda tier: [dict(build="ni", monitor="c15"), dict(build="ni", monitor="c15", tier="quick", opts={"mlockall": "1"}, nshards=8), dict(kind="custom", fn=_valgrind("c15"))] + ([dict(kind="custom", fn=_asan("c15"))] if tier == "thorough" else []),
     floors=_c15_floors,
     rule="a case is one history (operation sequence or named container history); distinct by enumeration index / (length, variant); evaluations count histories plus individual release events inspected",
     assumptions=["wiping registers, stack copies or swap is outside the property"],
